@@ -132,8 +132,12 @@ class SiteServer(fakenet.BaseServer):
 
 
 # ------------------------------------------------------------------ run
-class CrashNow(BaseException):
-    pass
+class Runaway(BaseException):
+    """The crawl keeps issuing requests / burning CPU without end: turned into a `hang` observation."""
+
+
+def _alarm(signum, frame):
+    raise Runaway('cpu')
 
 
 class CrawlRun(object):
@@ -154,6 +158,7 @@ class CrawlRun(object):
         self.cwd = cwd
         self.answer_log = []
         self.task_item = {}
+        self.max_requests = 400
 
     # ---- logging and crash points
     def log(self, **kw):
@@ -180,6 +185,8 @@ class CrawlRun(object):
             host, p = host.rsplit(':', 1)
             port = int(p)
         self.nreq += 1
+        if self.nreq > self.max_requests:
+            raise Runaway('requests')
         d = self.site.lookup(host, port, path)
         kind = 'robots' if path == '/robots.txt' else ('page' if d is not None else 'other')
         u = d['id'] if d is not None else 0
@@ -330,12 +337,25 @@ class CrawlRun(object):
         try:
             self.log(e='start', run=self.run_no)
             app = self.build()
-            kind, val = vloop.run(lambda: app.run(), self.env_step, env_before_timer=True)
-            if kind == 'ok':
+            import signal
+            oldsig = signal.signal(signal.SIGVTALRM, _alarm)
+            signal.setitimer(signal.ITIMER_VIRTUAL, 60.0)      # CPU seconds; a crawl here takes well under one
+            try:
+                try:
+                    kind, val = vloop.run(lambda: app.run(), self.env_step, env_before_timer=True)
+                except Runaway as e:
+                    kind, val = 'exc', e
+            finally:
+                signal.setitimer(signal.ITIMER_VIRTUAL, 0)
+                signal.signal(signal.SIGVTALRM, oldsig)
+            if kind == 'exc' and isinstance(val, Runaway):
+                kind = 'hang'
+                self.log(e='hang', pending=len(self.pending), runaway=str(val))
+            elif kind == 'ok':
                 self.log(e='exit', code=int(val))
             elif kind == 'exc':
                 self.log(e='exit', code=-1, exc='%s: %s' % (type(val).__name__, val))
-            else:
+            elif kind == 'hang' and not (self.ev and self.ev[-1].get('e') == 'hang'):
                 self.log(e='hang', pending=len(self.pending))
             self.outcome = kind
             self.exit_code = val if kind == 'ok' else None
